@@ -619,7 +619,7 @@ impl Kanata {
         self.sequence_always_on = cfg.options.sequence_always_on;
         self.sequence_input_mode = cfg.options.sequence_input_mode;
         self.sequence_timeout = cfg.options.sequence_timeout;
-        self.release_held_mouse_buttons();
+        self.release_held_custom_outputs();
         self.layout = cfg.layout;
         self.key_outputs = cfg.key_outputs;
         self.layer_info = cfg.layer_info;
@@ -755,17 +755,35 @@ impl Kanata {
         self.do_live_reload(tx)
     }
 
-    /// Release the mouse buttons that are held down by actions of the current layout. Used before
-    /// the layout is replaced: the new layout will never see the release of the keys involved.
-    fn release_held_mouse_buttons(&mut self) {
+    /// Release the mouse buttons and arbitrary codes that are held down by actions of the current
+    /// layout. Used before the layout is replaced: the new layout will never see the release of
+    /// the keys involved.
+    fn release_held_custom_outputs(&mut self) {
         let mut btns = vec![];
+        let mut codes = vec![];
         for state in self.layout.bm().states.iter() {
             if let State::Custom { value, .. } = state {
                 for ac in value.iter() {
-                    if let CustomAction::Mouse(btn) = ac {
-                        btns.push(*btn);
+                    match ac {
+                        CustomAction::Mouse(btn) => btns.push(*btn),
+                        CustomAction::SendArbitraryCode(code) => codes.push(*code),
+                        _ => {}
                     }
                 }
+            }
+        }
+        for code in codes {
+            if let Err(e) = {
+                #[cfg(all(not(feature = "simulated_output"), target_os = "windows"))]
+                {
+                    self.kbd_out.write_code_raw(code, KeyValue::Release)
+                }
+                #[cfg(any(feature = "simulated_output", not(target_os = "windows")))]
+                {
+                    self.kbd_out.write_code(code as u32, KeyValue::Release)
+                }
+            } {
+                log::error!("failed to release arbitrary code {e:?}");
             }
         }
         for btn in btns {
